@@ -79,6 +79,9 @@ type Script struct {
 	// InitHook is called at the start of Init (the orchestrator is then between creating the protocol instance and registering
 	// the session's handlers): lets a harness park the set-up of a session there
 	InitHook func(node uint16)
+	// RunHook is called when the protocol call (KeyGen / Sign) of the instance begins, i.e. after the orchestrator's set-up and
+	// synchronisations: lets a harness park a session at the start of its protocol phase
+	RunHook func(node uint16)
 	// LingerOnMsg > 0: the OnMsg call that completes the session's last round returns only after the protocol call (KeyGen / Sign)
 	// of this backend has returned (bounded by this duration), plus a moment for the orchestrator's own call to return. A protocol
 	// library that hands a message to its state machine synchronously behaves like this; it widens the window between the
@@ -249,6 +252,9 @@ func (b *Backend) roundComplete(r uint8) bool {
 }
 
 func (b *Backend) run(ctx context.Context) error {
+	if b.Script.RunHook != nil {
+		b.Script.RunHook(b.Node)
+	}
 	atomic.StoreInt32(&b.state, StRunning)
 	defer atomic.StoreInt32(&b.state, StDone)
 	b.mu.Lock()
